@@ -3,43 +3,117 @@
 // Contracts for the fvc verification-condition generator in /verif (comment-only file; it adds no
 // code to the package and is only seen with -tags verif).
 //
-// internal/memory is the in-process store behind the limiter (C13), the cache and the CSRF token store.
-// What is CHECKED here is what the engine can express about `data map[string]item`: the engine models the
-// key set of a map with struct values but not the stored struct values (a lookup yields an unconstrained
-// struct, an update writes only the key set). So the key-set part of the store contract is proved against the
-// real map, together with the lock discipline of the embedded RWMutex (every access of `data` inside one
-// critical section, lock released at exit) and run-time safety; the value/TTL part ("Get returns what the
-// last Set stored until the TTL has passed") stays an ASSUMED client-side contract
-// (zz_contracts_memory_verif.go in the client packages, for the limiter: middleware/limiter/zz_contracts_verif.go).
+// internal/memory is the in-process store behind the limiter (C13), the cache (C14) and the CSRF token store (C16).
+// CHECKED here, against the real `data map[string]item` (struct-valued maps are modelled by the engine: key set,
+// stored value and stored expiry of every entry):
+//   * Set stores item{val, expiry} under its key - expiry 0 for a TTL <= 0, otherwise uint32(ttl.Seconds()) + clock
+//     modulo 2^32 (whole seconds only: a TTL below a second gives expiry == clock, "expired at once") - and leaves
+//     every other entry as it was;
+//   * Get returns the stored value iff the key is present and (expiry == 0 or expiry > clock reading), else nil;
+//   * Delete removes its key only; Reset installs a fresh empty map and leaves the old map object alone;
+//   * gc, verified with the map havocked at every lock acquisition (other goroutines run while the lock is free):
+//     the write section removes only entries that are expired when they are removed (re-check under the write
+//     lock), adds and changes nothing; the scan collects exactly the expired keys; no collected key is left expired;
+//   * the lock discipline of the embedded RWMutex (writes inside one write section, lock released at exit) and
+//     run-time safety;
+//   * the clauses `client-model-*`: the ASSUMED ghost-map contracts that limiter, cache and csrf use for this store
+//     (zz_contracts_store_verif.go / zz_contracts_memory_verif.go there) are simulated by these functions, for a
+//     clock that does not run backwards (see `related` below).
+// Not checked: New (the `go` statement havocs everything; `memory.New` is an assumed `pure fresh` in deps/mw_C17.spec,
+// shared by name with internal/storage/memory). Reads are not tied to the read section (a lookup leaves no trace in
+// the state), and the engine has one `held` flag per RWMutex: read and write mode are told apart only by the atcall
+// clauses bound to Lock/Unlock resp. RLock/RUnlock.
 
 package memory
 
-//@ props C13
+//@ props C13 C14 C16
 
 // lkStore: token for "the state guarded by the embedded RWMutex" (gives the lock obligations: not held at Lock,
 // held at Unlock, released at exit). The map itself is not havocked at Lock: the postconditions below are the
 // sequential (linearisation-point) specification, relative to the state at entry.
 //@ envghost lkStore int
 
-// Get: one read section, nothing is written. (Neither the value nor the comma-ok flag of a lookup in a map
-// with struct values is modelled by the engine, so nothing can be proved about the result.)
+// clock: the value utils.Timestamp() returned last (environment state). The contract of Timestamp only NAMES the
+// reading (a uint32); nothing is assumed about how the clock moves. Where a statement needs a clock that does not
+// run backwards, that is written as an explicit hypothesis (clock >= old(clock)).
+//@ envghost clock int
+//@ func @utils.Timestamp assumed
+//@   modifies clock
+//@   ensures reading: result == clock && 0 <= clock && clock < 4294967296
+
+// The store's entry rule (memory.go: `v.e != 0 && v.e <= ts`): an entry with expiry e is expired at clock value t.
+//@ fn expiredAt(e int, t int) bool = e != 0 && e <= t
+// What Set computes from the TTL at clock value t: 0 (never expires) for ttl <= 0, otherwise the whole seconds of
+// the TTL (float -> uint32 truncation, so 0 for a TTL below one second) added to t modulo 2^32.
+//@ macro expiryFor(ttl, t) = ite(ttl > 0, (uint32(durSeconds(ttl)) + t) % 4294967296, 0)
+// The abstract store: key set, stored value, stored expiry, "live at clock value t".
+//@ macro mHas(s, k) = indom(s.data, k)
+//@ macro mVal(s, k) = s.data[k].v
+//@ macro mExp(s, k) = s.data[k].e
+//@ macro mLive(s, k, t) = indom(s.data, k) && !expiredAt(s.data[k].e, t)
+
+// ---- the client packages' model of this store, and how it is related to the map ------------------------------
+// limiter, cache and csrf describe the store by ghost maps memHas[store][key] / memVal[store][key] with ASSUMED
+// contracts of Get/Set/Delete (zz_contracts_store_verif.go, zz_contracts_memory_verif.go there): Set raises the flag
+// of its key and records the value, Delete lowers it, Get may lower the flag of the key it reads ("expiry is
+// observed at Get") and returns the recorded value iff the flag is still up. That model is LAZY (a flag stays up
+// until a Get of that key sees the entry gone), so it is not a function of the map; it is related to the map by
+//     related: an entry that is present, not expired at the current clock value and not nil is flagged, with its value
+// per store and key. The clauses `client-model-*` below prove, against the real code, that every operation maps
+// related pairs (map, client model) to related pairs when the client model takes the step its assumed contract
+// describes, and that the result is the one that contract promises. The only hypothesis is a clock that does not run
+// backwards (clock >= old(clock)); has/cv range over all flag/value pairs of the client model.
+//@ fn related(present bool, v ref, e int, c int, has bool, cv ref) bool = (present && !expiredAt(e, c) && v != nil) ==> (has && cv == v)
+//@ macro rel(s, k, c, has, cv) = related(indom(s.data, k), s.data[k].v, s.data[k].e, c, has, cv)
+
+// Get: one read section, nothing is written. The result is the stored value iff the key is present and its entry
+// is not expired at the clock value read AFTER the section (clock: that reading; the clock is not read, and the
+// ghost keeps its value, when the key is absent or the entry has no expiry).
 //@ func (*Storage).Get
 //@   requires lock-free-on-entry: !held(s.RWMutex)
 //@   lock s.RWMutex protects lkStore
 //@   pure
+//@   ensures stored-value-iff-present-and-not-expired: result == ite(mLive(s, key, clock), mVal(s, key), nil)
+//@   ensures absent: !mHas(s, key) ==> result == nil && clock == old(clock)
+//@   ensures without-expiry-always-served: mHas(s, key) && mExp(s, key) == 0 ==> result == mVal(s, key) && clock == old(clock)
+//@   ensures expired-never-served: mHas(s, key) && expiredAt(mExp(s, key), clock) ==> result == nil
+// client step of Get(key): the flag of key stays up iff something is returned (it is never raised); no other flag moves.
+//@   ensures client-model-get-result: clock >= old(clock) ==> forallB(has, forallI(cv, old(rel(s, key, clock, has, cv)) ==> ((has && result != nil) ==> result == cv) && (!(has && result != nil) ==> result == nil)))
+//@   ensures client-model-get-related-again: clock >= old(clock) ==> forallB(has, forallI(cv, old(rel(s, key, clock, has, cv)) ==> rel(s, key, clock, has && result != nil, cv)))
+//@   ensures client-model-get-other-keys: clock >= old(clock) ==> forallS(k, forallB(has, forallI(cv, old(rel(s, k, clock, has, cv)) ==> rel(s, k, clock, has, cv))))
+// (state-independent lemma, hosted here) time passing alone keeps every pair related - for the keys of other stores,
+// whose maps no function of this package writes, and between calls:
+//@   ensures client-model-time-passes: forallB(p, forallI(v, forallI(e, forallI(c, forallI(c2, forallB(has, forallI(cv, c2 >= c && related(p, v, e, c, has, cv) ==> related(p, v, e, c2, has, cv))))))))
 
-// Set: one write section; afterwards the key is in the map, no other key was added or removed.
+// Set: one write section; afterwards the key holds item{val, expiry}, no other entry was added, removed or changed.
 //@ func (*Storage).Set
 //@   requires lock-free-on-entry: !held(s.RWMutex)
 //@   lock s.RWMutex protects lkStore
 //@   requires map-made: s.data != nil
 //@   modifies heap(MD_string_memory_item), heap(MV_string_memory_item)
-//@   atcall @sync.(*RWMutex).Lock: map-untouched-before-the-section: forallS(k, indom(s.data, k) <==> old(indom(s.data, k)))
-//@   atcall @sync.(*RWMutex).Unlock: written-inside-the-section: indom(s.data, key)
+//@   atcall @sync.(*RWMutex).Lock: map-untouched-before-the-section: forallS(k, (indom(s.data, k) <==> old(indom(s.data, k))) && s.data[k] == old(s.data[k]))
+//@   atcall @sync.(*RWMutex).Unlock: written-inside-the-section: indom(s.data, key) && s.data[key].v == val
 //@   ensures key-stored: indom(s.data, key)
+//@   ensures value-stored: mVal(s, key) == val
+//   (for a TTL of 2^32 s or more the float64 -> uint32 conversion is implementation-defined in Go: nothing is claimed)
+//@   ensures expiry-stored: ttl < 4294967296000000000 ==> mExp(s, key) == expiryFor(ttl, clock)
+//@   ensures no-ttl-no-expiry: ttl <= 0 ==> mExp(s, key) == 0
+//@   ensures clock-read-only-for-a-ttl: ttl <= 0 ==> clock == old(clock)
+// Consequences of expiry-stored, spelled out for the clients (Seconds() is uninterpreted in the engine but for its
+// whole-second thresholds, deps/mw_C14.spec; that it is not negative for a positive duration is a hypothesis here):
+// a TTL that is not positive never expires; a TTL below one second is cut to 0 seconds, the entry expires at the
+// clock value at which it was stored (Get at that clock value, or later, answers nil unless the clock reads 0);
+// a TTL of at least a second is live at the clock value at which it was stored unless the uint32 sum wraps.
+//@   ensures no-ttl-never-expires: ttl <= 0 ==> forallI(t, !expiredAt(mExp(s, key), t))
+//@   ensures sub-second-ttl-is-expired-at-once: 0 < ttl && ttl < 1000000000 && durSeconds(ttl) >= real(0) ==> mExp(s, key) == clock && (clock != 0 ==> expiredAt(mExp(s, key), clock))
+//@   ensures whole-second-ttl-is-live-when-stored: ttl >= 1000000000 && uint32(durSeconds(ttl)) + clock < 4294967296 ==> mExp(s, key) == uint32(durSeconds(ttl)) + clock && !expiredAt(mExp(s, key), clock)
 //@   ensures other-keys-kept: forallS(k, k != key ==> (indom(s.data, k) <==> old(indom(s.data, k))))
+//@   ensures other-entries-kept: forallS(k, k != key ==> s.data[k] == old(s.data[k]))
+// client step of Set(key, val, ttl): flag of key := true, value of key := val; no other flag or value moves.
+//@   ensures client-model-set-key: rel(s, key, clock, true, val)
+//@   ensures client-model-set-other-keys: clock >= old(clock) ==> forallS(k, k != key ==> forallB(has, forallI(cv, old(rel(s, k, clock, has, cv)) ==> rel(s, k, clock, has, cv))))
 
-// Delete: one write section; afterwards the key is gone, no other key was added or removed.
+// Delete: one write section; afterwards the key is gone, no other entry was added, removed or changed.
 //@ func (*Storage).Delete
 //@   requires lock-free-on-entry: !held(s.RWMutex)
 //@   lock s.RWMutex protects lkStore
@@ -48,8 +122,14 @@ package memory
 //@   atcall @sync.(*RWMutex).Unlock: deleted-inside-the-section: !indom(s.data, key)
 //@   ensures key-gone: !indom(s.data, key)
 //@   ensures other-keys-kept: forallS(k, k != key ==> (indom(s.data, k) <==> old(indom(s.data, k))))
+//@   ensures other-entries-kept: forallS(k, k != key ==> s.data[k] == old(s.data[k]))
+//@   ensures clock-not-read: clock == old(clock)
+// client step of Delete(key): flag of key := false; no other flag moves.
+//@   ensures client-model-delete-key: forallI(cv, rel(s, key, clock, false, cv))
+//@   ensures client-model-delete-other-keys: forallS(k, k != key ==> forallB(has, forallI(cv, old(rel(s, k, clock, has, cv)) ==> rel(s, k, clock, has, cv))))
 
-// Reset: a fresh empty map replaces the old one.
+// Reset: a fresh empty map replaces the old one (the old map object itself is left as it was: a reader that
+// still holds it sees the old entries).
 //@ func (*Storage).Reset
 //@   requires lock-free-on-entry: !held(s.RWMutex)
 //@   lock s.RWMutex protects lkStore
@@ -57,16 +137,78 @@ package memory
 //@   atcall @sync.(*RWMutex).Lock: map-not-yet-replaced: s.data == old(s.data)
 //@   atcall @sync.(*RWMutex).Unlock: replaced-inside-the-section: s.data != nil && forallS(k, !indom(s.data, k))
 //@   ensures empty: s.data != nil && forallS(k, !indom(s.data, k))
+//@   ensures new-map: !wasAllocated(s.data)
+//@   ensures old-map-untouched: old(allocated(s.data)) ==> forallS(k, (old(indom(s.data, k)) <==> indom(old(s.data), k)) && old(s.data[k]) == old(s.data)[k])
+//@   ensures clock-not-read: clock == old(clock)
+// client step of Reset (no client package calls it): every flag := false.
+//@   ensures client-model-reset: forallS(k, forallI(cv, rel(s, k, clock, false, cv)))
 
-// gc: the sweeper goroutine. Checked: lock discipline (the key set is collected in a read section, deletions
-// happen in one write section, the lock is free again after every round) and run-time safety of the
-// `expired` scratch slice. That it only deletes entries whose TTL has passed is not expressible (struct values).
+// gc: the sweeper goroutine. Unlike the four operations above it is verified as a CONCURRENT section sequence: the
+// map pointer and the map contents are havocked at every RLock/Lock (other goroutines ran while the lock was
+// free), so nothing that was seen in the read section is known in the write section.
+// "Only entries that are expired at the time of deletion are deleted" is stated with a witness entry: at every
+// acquisition an arbitrary triple (wKey, wVal, wExp) is chosen (the ghosts are havocked with the map); if it
+// describes the entry stored under wKey, then at the release the entry is still described by it unless it is gone,
+// and it is gone only if it is expired with respect to ts (the clock value of this round, read before the
+// sections: with a clock that does not run backwards such an entry is expired at any later time as well).
+// Since the witness is arbitrary, this holds for every entry: the write section removes entries that are expired
+// NOW (re-checked under the write lock), adds none and changes none.
+//@ ghost wIn bool
+//@ ghost wKey string
+//@ ghost wVal ref
+//@ ghost wExp int
+//@ ghost cKey string
+//@ ghost cHas bool
+//@ ghost cVal ref
+//@ macro witnessKept(s, t) = wIn ==> (indom(s.data, wKey) ==> s.data[wKey].v == wVal && s.data[wKey].e == wExp) && (!expiredAt(wExp, t) ==> indom(s.data, wKey))
+//@ macro expiredNow(s, k, t) = indom(s.data, k) && expiredAt(s.data[k].e, t)
 //@ func (*Storage).gc
 //@   requires lock-free-on-entry: !held(s.RWMutex)
-//@   lock s.RWMutex protects lkStore
+//@   lock s.RWMutex protects lkStore, H_memory_Storage_data, MD_string_memory_item, MV_string_memory_item, wIn, wKey, wVal, wExp inv only-expired-entries-are-removed-nothing-else-changes: witnessKept(s, ts)
+//   the client packages' model (see `related` above) stays related over every section of gc, for every key and every flag/value pair
+//@   lock s.RWMutex protects cKey, cHas, cVal inv client-model-stays-related: rel(s, cKey, ts, cHas, cVal)
+//@   atcall @sync.(*RWMutex).RUnlock: scan-collected-exactly-the-expired-keys: forallS(k, expiredNow(s, k, ts) ==> exists(j, 0, len(expired), expired[j] == k)) && forall(j, 0, len(expired), expiredNow(s, expired[j], ts))
+//@   atcall @sync.(*RWMutex).RLock: round-clock: ts == clock
+//@   atcall @sync.(*RWMutex).Lock: no-lock-upgrade-same-round-clock: !held(s.RWMutex) && ts == clock
+//@   atcall @sync.(*RWMutex).Unlock: no-collected-key-is-left-expired: forall(j, 0, len(expired), !expiredNow(s, expired[j], ts))
 //@   loop 1
 //@     invariant lock-free-between-rounds: !held(s.RWMutex)
 //@   loop 2
 //@     invariant read-section: held(s.RWMutex)
+//@     invariant removed-only-if-expired-now-nothing-else-changes: witnessKept(s, ts)
+//@     invariant visited-expired-keys-collected: forallS(k, seen(k) && expiredNow(s, k, ts) ==> exists(j, 0, len(expired), expired[j] == k))
+//@     invariant client-model-related: rel(s, cKey, ts, cHas, cVal)
+//@     invariant collected-keys-expired: forall(j, 0, len(expired), expiredNow(s, expired[j], ts))
 //@   loop 3
 //@     invariant write-section: held(s.RWMutex)
+//@     invariant removed-only-if-expired-now-nothing-else-changes: witnessKept(s, ts)
+//@     invariant client-model-related: rel(s, cKey, ts, cHas, cVal)
+//@     invariant rechecked-so-far: forall(j, 0, rangeindex + 1, !expiredNow(s, expired[j], ts))
+
+// ---- which client-side ASSUMED clause is covered by which checked clause of this file --------------------------
+// (has' = has && result != nil is the step of the client model at Get; R = `related`; "mono" = clock >= old(clock))
+//
+// limiter/zz_contracts_store_verif.go
+//   Get  only-expiry-of-the-key-read  flag of (s,key) never raised: definition of has'; R kept for (s,key): Get/client-model-get-related-again;
+//                                     flags of other keys of s unchanged and still related: Get/client-model-get-other-keys;
+//                                     other stores: Get is `pure` (frame-checked) + Get/client-model-time-passes          [mono]
+//        live-value                   Get/client-model-get-result, 1st conjunct (from Get/stored-value-iff-present-and-not-expired) [mono]
+//        expired-or-absent            Get/client-model-get-result, 2nd conjunct                                               [mono]
+//   Set  memHas, memVal updates       Set/client-model-set-key (from key-stored, value-stored), Set/client-model-set-other-keys
+//                                     (from other-keys-kept, other-entries-kept)                                             [mono]
+//        memKey/memCurr/memPrev/memExp  not about the store: ghost bookkeeping of the limiter over the argument `val`
+// cache/zz_contracts_memory_verif.go, csrf/zz_contracts_memory_verif.go
+//   Get  only-expiry                  as above (flags are never raised by the step)
+//        (result != nil) <==> memHas  Get/client-model-get-result (both conjuncts) with has'
+//        returns-stored-value (cache) Get/client-model-get-result, 1st conjunct
+//   Set  memHas (and memVal) update   Set/client-model-set-key, Set/client-model-set-other-keys
+//   Delete memHas update              Delete/client-model-delete-key, Delete/client-model-delete-other-keys
+// gc (runs between the clients' calls): R kept over every section: gc/lockinv:client-model-stays-related.
+// NOT covered here: the clock does not run backwards (utils.Timestamp is fed from the wall clock; without it an
+// entry seen expired can be served again: Get/client-model-get-result fails without the hypothesis); memory.New
+// returns a fresh store with an empty map (assumed in deps/mw_C17.spec); Set/Delete of one store leave the maps
+// of other stores alone (true of the code - the writes go to s.data - but the frame language names a map heap only
+// as a whole); sync.RWMutex gives mutual exclusion, so that each operation takes effect at one point.
+// STRONGER than the client model (which lets an entry vanish at any Get): Set/expiry-stored, the Get rule and
+// gc/lockinv:only-expired-entries-are-removed-nothing-else-changes together say that an entry is served until its
+// expiry and never lost before it ("the store honours the TTL it is given", whole seconds).
